@@ -147,13 +147,11 @@ def check_arith(run: Run, n_per_op: int, failures: list) -> None:
             if not normal_or_zero(want):
                 run.count("arith:impl_out_of_range")
                 continue
-            exact_tie = False
             if ratio_of_json(g) != want.as_integer_ratio():
                 failures.append({"kind": "arith", "op": op, "a": a.hex(), "b": b.hex(), "impl": want.hex(),
                                  "model": g})
             if want == 0.0:
                 run.count("arith:zero_result")
-            del exact_tie
     # int -> float
     ns = [0, 1, 2 ** 53 - 1, 2 ** 53, 2 ** 53 + 1, 2 ** 53 + 2, 2 ** 53 + 3, 2 ** 54 - 1, 2 ** 54 + 2, 2 ** 54 + 6, 10 ** 22,
           10 ** 23]
@@ -261,12 +259,20 @@ def real_outcome(spec: tuple):
     return o
 
 
+_MODEL_CACHE: dict = {}
+
+
 def model_outcome(spec: tuple) -> list:
-    if spec[0] == "cf":
-        return ["cf", spec[1], spec[2]]
-    if spec[0] == "da":
-        return ["da", [ratio(float.fromhex(v)) for v in spec[1]]]
-    return ["raise"]
+    o = _MODEL_CACHE.get(spec)
+    if o is None:
+        if spec[0] == "cf":
+            o = ["cf", spec[1], spec[2]]
+        elif spec[0] == "da":
+            o = ["da", [ratio(float.fromhex(v)) for v in spec[1]]]
+        else:
+            o = ["raise"]
+        _MODEL_CACHE[spec] = o
+    return o
 
 
 SAT_SPECS = [("cf", 1, 1), ("cf", 1, 1), ("cf", 2, 2), ("cf", 3, 3), ("cf", 7, 7), ("cf", 49, 49), ("cf", 1000, 1000),
@@ -293,7 +299,7 @@ def rle(items: list) -> list:
     """run-length encode consecutive equal model outcomes: ["rep", n, C]"""
     out: list = []
     for it in items:
-        if out and out[-1][2] == it:
+        if out and (out[-1][2] is it or out[-1][2] == it):
             out[-1][1] += 1
         else:
             out.append(["rep", 1, it])
@@ -359,9 +365,16 @@ class Case:
 
 
 def sat_specs(rng, n: int, plain: bool) -> list[tuple]:
-    if plain:
+    """n satisfied outcomes; flavours come in up to 4 blocks (keeps the model request run-length small)"""
+    if plain or n == 0:
         return [("cf", 1, 1)] * n
-    return [rng.choice(SAT_SPECS) for _ in range(n)]
+    cuts = sorted(rng.randint(0, n) for _ in range(rng.randint(0, 3)))
+    out: list[tuple] = []
+    prev = 0
+    for c in cuts + [n]:
+        out += [rng.choice(SAT_SPECS)] * (c - prev)
+        prev = c
+    return out
 
 
 def is_sat(spec: tuple) -> bool:
@@ -480,7 +493,7 @@ def e2e_one(run: Run, h: int, r: int, seed: int, do_fuzz: bool) -> list[str]:
         trees = list(fan.grammar.parse_forest(e2e_word(h, r)))
         if not trees:
             raise MachineryError(f"e2e: the known solution of spec(h={h}, r={r}) does not parse")
-        fan.fuzz(desired_solutions=1, population_size=2, max_generations=1)   # builds fan.fandango
+        fan.init_population(population_size=6)       # a fresh FandangoStrategy (fuzz() would build another one)
         ev = fan.fandango.evaluator
         if (len(ev._hard_constraints), len(ev._repetition_bounds_constraints), len(ev._soft_constraints)) != (h, r, 0):
             run.count("e2e:class_sizes_differ")
@@ -505,7 +518,7 @@ def e2e_one(run: Run, h: int, r: int, seed: int, do_fuzz: bool) -> list[str]:
 
         ev.evaluate_individual = wrapped
         if do_fuzz:
-            fan.fuzz(desired_solutions=3, population_size=6, max_generations=3)
+            list(itertools.islice(fan.generate_solutions(max_generations=3), 3))     # ALWAYS bounded
         for t in trees:
             fan.grammar.populate_sources(t)
             for _ in wrapped(t):
